@@ -61,6 +61,89 @@ def run(ctx):
     ok, a, bad = rules.dom_check(db, fn, ins, head_or_ancestor)
     ctx.check("dom:merge:ancestry", bool(ok and a and ins), "a merge is recorded only if the commit is the head of, or an ancestor of, the merging delegate's default branch",
               rules.where(fn, ins[0] if ins else None), detail={"path": list(bad.values())[:1]}, fn=fn)
+    # STANDING QUORUM: the tally is recomputed on every Merge action (a delegate's later merge replaces their earlier one).
+    # The arm in which no (revision, commit) group reaches the threshold must not leave a previously Merged state in place:
+    # otherwise the patch stays "merged at (r, c)" with fewer than threshold delegates still recording (r, c)
+    gM = graph(fn)
+    sw_empty = []
+    for bb in M:
+        t = fn["blocks"][bb]["t"]
+        if t[0] != "switch":
+            continue
+        e = peel(expr_operand(fn, t[1]))
+        if e[0] == "bin" and e[1] == "Eq":
+            l, r = nshow(e[2]), nshow(e[3])
+            if ("as_slice" in l or "PtrMetadata" in l or "len" in l.lower()) and "into_keys" in l and r == "0":
+                for tb, lab in gM.succ[bb]:
+                    if lab == "otherwise":          # Eq(len, 0) is true
+                        sw_empty.append((bb, tb))
+    ctx.floor("merge:no-quorum-arm", len(sw_empty), 1, "the arm of the tally in which no group reaches the threshold")
+    swr = [b_ for b_, j, s_ in rules.field_writes(fn, "state", r"cob::patch::Patch") if b_ in M]
+    for bb, tb in sw_empty:
+        # from the empty arm to the end of the Merge arm: either the state is (re)written, or a test established that it is not Merged
+        region = gM.reach([tb], avoid_blocks=set(swr))
+        rets = [r_ for r_ in rules.ret_blocks(fn) if r_ in region]
+        guarded = False
+        if rets:
+            okq, alq, _ = rules.dom_check(db, fn, [tb], lambda f: f[0] == "variant" and f[3] == "Merged" and not f[4] and "arg1.state" in nshow(f[1]))
+            guarded = bool(okq and alq)
+        # a conditional rewrite `if matches!(state, Merged) { state = Open }` leaves one path without a write: that path is the not-Merged one
+        cond_ok = False
+        if rets and not guarded:
+            for (b0, t0, lab0, facts) in cfg.all_edge_facts(db, fn):
+                if b0 in gM.reach([tb]) and any(f[0] == "variant" and f[3] == "Merged" and "arg1.state" in nshow(f[1]) for f in facts):
+                    # paths on which the state *is* Merged must pass a state write
+                    for f in facts:
+                        if f[0] == "variant" and f[3] == "Merged" and f[4] and "arg1.state" in nshow(f[1]):
+                            reg2 = gM.reach_k([(t0, gM.edge_know(b0, t0, lab0, frozenset()) or frozenset())], avoid_blocks=set(swr))
+                            cond_ok = not any(r_ in reg2 for r_ in rules.ret_blocks(fn))
+        ctx.check("table:merge:no-quorum-resets", (not rets) or guarded or cond_ok,
+                  "when no (revision, commit) group reaches the threshold any more, a patch that was Merged does not stay Merged "
+                  "(a delegate's later merge replaces their earlier one, so the quorum behind `Merged` can disappear)",
+                  rules.where(fn, tb), fn=fn)
+
+    # the head the commit is compared with comes from the merging delegate's own branch and from nowhere else
+    srcs = set()
+    nh = 0
+    for (b0, tb, lab, facts) in cfg.all_edge_facts(db, fn):
+        if b0 not in M:
+            continue
+        for f in facts:
+            heads = []
+            if f[0] == "cmp" and f[1] in ("Eq", "Ne") and "arg2 as Merge.commit" in nshow(f[2]) + nshow(f[3]):
+                heads.append(f[3] if "arg2 as Merge.commit" in nshow(f[2]) else f[2])
+            elif f[0] == "bool" and "is_ancestor_of" in nshow(f[1]):
+                e_ = peel(f[1])
+                if e_[0] == "call" and len(e_[2]) >= 3:
+                    heads.append(e_[2][2])
+            for h in heads:
+                nh += 1
+                stack = [h]
+                while stack:
+                    x = stack.pop()
+                    if not isinstance(x, tuple):
+                        continue
+                    if x[0] == "call":
+                        n_ = x[1].get("n") or x[1].get("dn") or ""
+                        if n_.endswith("ReadRepository::reference_oid"):
+                            srcs.add("ReadRepository::reference_oid")
+                            continue            # its arguments (author, branch name) are checked by flow:merge:own-branch
+                        if not re.search(r"Try>::branch$|Try::branch$|Deref>::deref$|Deref::deref$|Clone::clone$|Into::into$|From<.*>>::from$|Result::ok$", n_):
+                            srcs.add(cfg.short(n_))
+                        stack.extend(x[2])
+                    elif x[0] == "agg":
+                        if isinstance(x[1], dict) and x[1].get("closure"):
+                            srcs.add("closure")
+                        stack.extend(x[2])
+                    elif x[0] in ("ref", "deref", "field", "down", "index"):
+                        stack.append(x[1])
+                    elif x[0] in ("bin",):
+                        stack.extend([x[2], x[3]])
+                    elif x[0] in ("un", "cast"):
+                        stack.append(x[2])
+    ctx.check("flow:merge:head-source", nh >= 1 and srcs == {"ReadRepository::reference_oid"},
+              "the head a merged commit is checked against is the merging delegate's own branch head and nothing else (sources: %s)" % sorted(srcs),
+              rules.where(fn, ins[0] if ins else None), fn=fn)
     ok, d, bad = rules.excl_check(db, fn, ins, lambda f: f[0] == "variant" and f[4] and f[3] == "Err" and "reference_oid" in nshow(f[1]))
     ctx.check("excl:merge:no-branch", bool(ok and d), "no merge is recorded when the delegate's default branch cannot be resolved", rules.where(fn), fn=fn)
     for bb in M:
